@@ -249,7 +249,7 @@ impl RtpsStatefulWriter {
                         ENTITYID_UNKNOWN,
                         writer_id,
                         change_seq_num,
-                        SequenceNumberSet::new(change_seq_num + 1, []),
+                        SequenceNumberSet::new(change_seq_num.saturating_add(1), []),
                     );
 
                     let rtps_message = RtpsMessageWrite::from_submessages(
